@@ -406,6 +406,24 @@ let do_ct line =
     "S:" ^ hex_of_bytes out ^ " " ^ p
   | _ -> "badcase"
 
+(* ---- a truncated stream:  ctt <ck> <bs> <isz> <ent> ; <hex of the cut stream>  ->  T:<bytes in the frames parsed before the failure> ---- *)
+let do_ctt line =
+  match split_on_semis line with
+  | ["ctt"; ck; _bs; _isz; ent] :: [stream] :: _ ->
+    let hash = K.block_hash (ns ck) in
+    let evalid e = (K.en_get_name (z_of_zar (zar_of_n e))) <> None in
+    let tvalid t = (K.tr_get_name (z_of_zar (zar_of_n t))) <> None in
+    let parse = if ent = "0" then K.parse_stream else K.parse_stream_e in
+    (match parse hash evalid tvalid (nat_of_int 300) (ns "64") [ns "7"; ns "1"; ns "0"] (bytes_of_hex stream) with
+     | None -> "T:0"
+     | Some (_, frames) ->
+       let rec go fs len = match fs with
+         | [K.PFail] -> Printf.sprintf "T:%d" len
+         | K.PData b :: t -> go t (len + List.length b)
+         | _ -> "T:complete" in
+       go frames 0)
+  | _ -> "badcase"
+
 (* ---- block checksums:  xx <ck> <hex data>  ->  decimal hash (Model/XXHash.v) ---- *)
 let do_xx args =
   match args with
@@ -431,6 +449,7 @@ let dispatch line =
   | "rgd" :: args -> do_rgd args
   | "fp" :: _ -> do_fp line
   | "ct" :: _ -> do_ct line
+  | "ctt" :: _ -> do_ctt line
   | "xx" :: args -> do_xx args
   | k :: _ -> "unknown " ^ k
 
